@@ -277,6 +277,19 @@ impl Workspace {
                 if file.exists {
                     let source_path = checkpoint_root.join("files").join(&file.path);
                     let bytes = fs::read(&source_path)?;
+                    // The store lies inside the workspace: a stored copy that no longer has the
+                    // hash recorded at create time is not the checkpointed content.
+                    if let Some(expected) = &file.sha256 {
+                        if hash_bytes(&bytes) != *expected {
+                            return Err(io::Error::new(
+                                io::ErrorKind::InvalidData,
+                                format!(
+                                    "stored copy of {} does not match its recorded sha256",
+                                    file.path
+                                ),
+                            ));
+                        }
+                    }
                     if let Some(parent) = target_path.parent() {
                         fs::create_dir_all(parent)?;
                     }
